@@ -678,6 +678,16 @@ fn step(inst: &mut Instance, a: Act, last: Option<&Verdict>) -> StepObs {
     }
 }
 
+thread_local! {
+    static FLUSH_EXTRA: std::cell::Cell<usize> = const { std::cell::Cell::new(0) };
+}
+
+/// Allow this many more work() calls in the flush tail (for sources, whose
+/// output length is not visible from their inputs).
+pub fn set_flush_extra(n: usize) {
+    FLUSH_EXTRA.with(|f| f.set(n));
+}
+
 /// Run explicit actions, then flush: feed everything, release everything,
 /// close inputs once everything is fed, and call work() until it has nothing
 /// more to say.
@@ -712,7 +722,7 @@ pub fn execute(mut inst: Instance, acts: &[Act], flush: bool) -> Exec {
     }
     if ok && flush {
         let total: usize = inst.ins.iter().map(|p| p.remaining() + p.fed()).sum();
-        let cap_calls = 64 + 6 * total;
+        let cap_calls = 64 + 6 * total + FLUSH_EXTRA.with(|f| f.get());
         let mut idle = 0;
         for _ in 0..cap_calls {
             for p in &mut inst.ins {
